@@ -96,8 +96,11 @@ CHECKS = {
          "a fresh main fiber, a compile error changes nothing, an uncaught error clears only the failing fiber's frames, reset restores the initial "
          "globals. Seeded sequences of 2-6 snippets from a catalogue of 23 (definitions and later uses, compile errors, uncaught throws from every "
          "depth including fibers and finally blocks, imports of good and failing modules, fibers and closures kept across snippets, reset) are "
-         "replayed snippet by snippet on ONE Vm per sequence on both builds; per snippet output and outcome must be equal.",
-    note=MACHINE_NOTE + " The yarel-cli REPL binary itself is not driven (same vm::interpret entry point).",
+         "replayed snippet by snippet on ONE Vm per sequence on both builds; per snippet output and outcome must be equal; the control events of every "
+         "sequence are validated by TraceVm.tla (every run starts with the exception-in-flight flag clear and ends, when it succeeds, with no frame and no "
+         "handler left). A sample of the sequences is typed, one snippet per line, into the shipped REPL (yarel-cli, checked and optimised build): its "
+         "stdout and stderr must be what the specification predicts.",
+    note=MACHINE_NOTE + " In the REPL layer line numbers are masked (a snippet is one input line).",
     technique="TLA+ reference machine (TLC) + scenario products replayed on the implementation", design="4 C15"),
  "C17": dict(
     level="model_checking",
@@ -106,7 +109,10 @@ CHECKS = {
          "with the raise location kept only while the innermost frame still belongs to the raising function. Seeded products cross 23 failure "
          "kinds (every built-in failure class, thrown values, a host native failing with each ErrorKind) x call chains through functions, methods, "
          "bound and static methods, constructors, lambdas and fibers x catch site x an earlier handled throw; programs are printed one statement "
-         "per line so every line number is predicted. Compile errors: 12 kinds of syntax error placed at a random line must be reported at that line.",
+         "per line so every line number is predicted (string literals containing escaped line breaks included). Compile errors: 12 kinds of syntax "
+         "error placed at a random line must be reported at that line. A sample of the scenarios and of the non-compiling programs is also run by the "
+         "shipped command-line program (yarel-cli, both builds): stdout, the messages on stderr and the exit status (0 / 65 / 70) must be what the "
+         "specification's result implies.",
     note=MACHINE_NOTE + " Module frames in traces are covered by C14's scenarios.",
     technique="TLA+ reference machine (TLC) + scenario products replayed on the implementation", design="4 C17"),
  "C18": dict(
@@ -114,7 +120,9 @@ CHECKS = {
     text="The for statement is desugared in Machine.tla as the compiler does (iter(), next(), assign the loop variable, test StopIter), built-in "
          "iterators are index based, and map / filter / collect / reduce are core.yl's own code (Iter, MapIter, FilterIter as a token prelude with "
          "their core.yl line numbers) executed by the machine. Seeded products: 13 iterables x 0-3 adapters x 11 consumers (break / continue / "
-         "return, nested and interleaved loops over one iterator, mutation during iteration, manual next), replayed on both builds.",
+         "return, nested and interleaved loops over one iterator, manual next; vectors of 1-5 elements pushed to / popped from during iteration so that "
+         "the length moves onto, below and past the cursor; user iterables whose iter() rewinds, or that have next() only, under map / filter / "
+         "collect / reduce), replayed on both builds.",
     note=MACHINE_NOTE + " String iteration is decided by C13.",
     technique="TLA+ reference machine (TLC) + scenario products replayed on the implementation", design="4 C18"),
  "C07": dict(
@@ -122,7 +130,8 @@ CHECKS = {
     text="Machine.tla models class definition as the VM performs it (variable nil while defining, superclass check, methods copied down at "
          "definition, the hidden `super` variable, statics in the metaclass only, default and explicit initialisers with Construct, bound "
          "methods, fields before methods, Self, derives over the declared ancestry). Seeded products over hierarchies of depth 1-3 with "
-         "define / override / super-call / super-value / omit per level, static methods, constructor chains, fields shadowing methods, bound "
+         "define / override / super-call / super-value / omit per level, static methods, constructor chains, fields shadowing methods (also "
+         "a field named like a method that an ancestor reaches through super), static methods and constructors read as values through the class, bound "
          "methods in variables and fields, superclass rebinding, local classes and all arities are executed by the machine under TLC and "
          "replayed on checked and optimised builds.",
     note=MACHINE_NOTE + " Scenario products are built outside TLC; not exhaustive.",
@@ -147,7 +156,11 @@ CHECKS = {
     level="model_checking",
     text="Machine.tla delivers completions (throw / return / break / continue) structurally: to the innermost try whose body is active, through every "
          "finally exactly once. TLC generates programs nesting try/catch/finally with loops, functions, explicit throws, failing built-ins and throws from "
-         "callees (exhaustive small budget + simulation), and 108 scenarios cross raise site x handler shape. The ideal run records trigger events for the "
+         "callees (exhaustive small budget + simulation); 108 scenarios cross raise site x handler shape and 156 cross the block that is left (try body / "
+         "catch / finally) x what the try statement has x what ran before (a completed or catching inner try) x the exit (fall through, return, throw, "
+         "callee throw, break, continue), each followed by probes that only a stale handler would disturb. The control events of every trigger-free "
+         "program are validated by TraceVm.tla (a handler is popped only by its own frame, no frame returns with a handler installed, an exception lands "
+         "on the innermost installed record with the recorded frame count and height, the in-flight flag changes only at Throw / Landed). The ideal run records trigger events for the "
          "six recorded try/finally findings; a differing behaviour is attributed to a finding only if its ideal run contains that finding's trigger, "
          "every other program must agree exactly (output, outcome, error class, message, trace lines).",
     note=MACHINE_NOTE + " Six genuine defects of try/finally compilation are recorded in known_findings.json (not small repairs).",
@@ -157,8 +170,11 @@ CHECKS = {
     text="Machine.tla keeps one frame stack (with its own control stack, cells and handlers) per fiber and models call / yield / return / finish, the "
          "argument and result transfer, and the as-built error cases (finished, already called, wrong argument count, yield at module level, the is_new "
          "quirk). Every one-fiber program with a body of <= 2 actions (11 kinds) under two schedules, plus seeded products of 2-3 fibers x bodies x main "
-         "schedules (yields from nested frames, try/finally across a switch, closures shared with a suspended fiber, fibers calling fibers), are run "
-         "through the machine by TLC and replayed on checked and optimised builds.",
+         "schedules (yields from nested frames, try/finally across a switch, closures shared with a suspended fiber, fibers calling fibers), and 80 "
+         "products of the caller's context at the switch (try body, catch block, finally with nothing / an exception / a return value pending, loop, "
+         "argument evaluation) x the kind of switch x main-or-fiber, are run through the machine by TLC and replayed on checked and optimised builds; "
+         "TraceVm.tla validates every switch event (a resumed fiber is exactly as it was left, caller chain +-1, both representations of the active fiber equal, "
+         "the in-flight flag untouched by a switch).",
     note=MACHINE_NOTE + " Scenario products are built outside TLC (same static resolution as the compiler); the expectation always comes from the TLC run of Machine.tla.",
     technique="TLA+ reference machine (TLC) + scenario products replayed on the implementation", design="4 C09"),
  "C04": dict(
@@ -167,10 +183,12 @@ CHECKS = {
          "behaviour (worklist dataflow over abstract states: operand-stack height, handler stack, pending finally-return, exception "
          "in flight; exceptional, JumpFinally and EndFinally edges included) and reports any fetch outside the code, operand naming a "
          "missing constant/local/captured variable, underflow, jump into an operand, or instruction reached with two heights or two "
-         "handler stacks. Inputs: every function of the 546 repository scripts and core.yl, programs sized by measurement to sit on / "
+         "handler stacks, and any scope exit that lowers the stack below a slot a closure has captured without CloseUpvalue (captured-slot "
+         "tracking on every path, incl. break / continue). Inputs: every function of the 546 repository scripts and core.yl, programs sized by measurement to sit on / "
          "around every encoding limit (each must be rejected, or be accepted and print the known answer), and the programs generated "
-         "for the other properties.",
-    note="Name resolution (the access reads the variable the source names) is decided dynamically by the C05/C06 replays. The "
+         "for the other properties. The dynamic half of 'every access reads or writes the variable the source names' is the closure "
+         "scenario product (capturing scope x exit path x capture order) executed by the reference machine and replayed.",
+    note="The The "
          "opcode effect table is transcribed from vm.rs. Jump-limit programs (64 KiB of code) go through Bytecode.tla in the thorough tier only.",
     technique="TLA+ spec + TLC exhaustive path exploration of exported bytecode; limit programs with known answers",
     design="4 C04"),
@@ -180,9 +198,12 @@ CHECKS = {
          "TLC explores every mutator history over 4 boxes x every collection schedule and checks GcSafety (no reachable box "
          "reclaimed, reachability over ALL pointers an object holds), Reclaimed and NoGreyLeft (the trace loop terminates - which "
          "exposed a livelock in the real collector, now fixed). Every history ending in a collection is replayed on the real heap "
-         "(reclaimed set after every step). The per-kind pointers of the real object graph are bound by 34 edge probes and the 546 "
+         "(reclaimed set after every step). The per-kind pointers of the real object graph are bound by 40-odd edge probes and the 546 "
          "repository scripts run under never/always/periodic schedules with swept objects quarantined: any access to a reclaimed "
-         "object, or any output difference between schedules, is a violation.",
+         "object, or any output difference between schedules, is a violation. The same schedules are applied to every operation of "
+         "Natives.tla written with TEMPORARY operands (nothing but the VM's own rooting keeps them alive while the operation allocates) and "
+         "to the scenario products of the other properties (closures in every capture order and exit path, exceptions, fibers, classes, "
+         "iteration, maps, runs that die with captured variables live).",
     note="Exhaustive only for the collector core within the bound (4 boxes, 2 pointer slots); the whole-program layer is "
          "exploration over a fixed program set under dominating schedules. Trusts the quarantine hook to turn use-after-free into an event.",
     technique="TLA+ spec + TLC exhaustive + history replay on memory::Heap; schedule-differential runs with quarantine",
@@ -205,10 +226,12 @@ CHECKS = {
          "explores every history over a key pool with full-hash twins, low-bit colliders and wrap-around chains "
          "(exhaustive state graph), checks NoDuplicate/Findable/AlwaysAHole/IdStable, and every transition is replayed "
          "on the real table comparing the whole slot array and object identities; the real FNV path is bound the other "
-         "way round: every Vm::new_gc_obj_string call logs its probe result and TraceIntern.tla must explain each event.",
+         "way round: every Vm::new_gc_obj_string call logs its probe result and TraceIntern.tla must explain each event. StrIdent.tla "
+         "enumerates pairs of string PRODUCERS inside programs (literal, concatenation at any split, slice at any byte offset, interpolation, split piece, "
+         "replace, from_utf8, character-wise rebuild) x lengths around 8 / 16 / 32 / 64 bytes x misalignments x same-or-one-byte-different contents; "
+         "==, reversed == and a map lookup must say exactly 'same bytes'.",
     note="Trusts TLC and the harness; full-hash collisions reach the real code only through the hook wrapper "
-         "verif_intern::Table (same get/insert code with a caller-chosen hash). In-program string producers are "
-         "covered by the C05/C13 replays, not here.",
+         "verif_intern::Table (same get/insert code with a caller-chosen hash).",
     technique="TLA+ spec + TLC exhaustive + spec->impl replay of every transition + impl->spec trace validation",
     design="4 C11"),
 }
